@@ -92,11 +92,19 @@ static void c05_run(void) {
 	g.oracles = O_SYNCRET | O_SERIAL | O_HIER | O_BARRIER;   // hand-offs carry data only if the items are serialised (or excluded by barriers) in the first place
 	g.retarget = 2;
 	g.opmask |= (1u << OP_BARRIER_AAW) | (1u << OP_APPLY);
+	// a quarter of the runs: queues are suspended and resumed meanwhile (a lock handed to a parked waiter by a resume)
+	if (g_chance(1, 4)) { g.opmask |= (1u << OP_SUSPEND) | (1u << OP_PAUSE); g.oracles |= O_SUSPEND; }
 	g.qkindmask |= 1u << QK_WORKLOOP;
 	g.max_queues = 5; g.max_qdepth = 3; g.nest_pct = 30;
 	g.min_clients = 2; g.max_clients = 4; g.max_ops = (RC.cfg & CFG_THOROUGH) ? 12 : 8;
 	g.bodymask |= 1u << B_SLEEP;
 	if (g_chance(1, 5)) { g.use_main = 1; g.qkindmask |= 1u << QK_MAIN; }
+	// a quarter of the runs: deeper hierarchies of serial queues over concurrent ones only, some of them activated late
+	// (a waiter that is handed the lock of its queue still has to be admitted by every level above it)
+	else if (g_chance(1, 3)) {
+		g.qkindmask = (1u << QK_SERIAL) | (1u << QK_CONC);
+		g.min_queues = 3; g.max_qdepth = 4; g.inactive_pct = 20;
+	}
 	qprog_run(&g);
 }
 const prop_def prop_C05 = { "C05", NULL, c05_run, qprog_counter_names,
